@@ -69,8 +69,9 @@ type Stats struct {
 	StateHashes []string
 	NonTrivial  bool
 	Outcomes    map[string]int
-	Decisions   map[int][]int // per lifetime index: the schedule actually taken
-	Trace       []string      // canonical event trace (determinism self-test)
+	Sorted      map[string][]byte // bytes of every file right after a Clean with Sort handled it
+	Decisions   map[int][]int     // per lifetime index: the schedule actually taken
+	Trace       []string          // canonical event trace (determinism self-test)
 }
 
 type Outcome struct {
@@ -115,6 +116,39 @@ func skipDisk(p string) bool { return isHarnessSource(p) }
 // RunWorld executes the world and returns the first violation, if any.
 func RunWorld(env *Env, w *World) *Outcome {
 	out := runWorld(env, w)
+	if w.Differential == "record-order" && out.Infra == "" && out.Viol == nil && len(out.Stats.Sorted) > 0 {
+		// the same history, recorded in another order: what Clean's sort leaves must not depend on it
+		b, _ := json.Marshal(w)
+		var w2 World
+		json.Unmarshal(b, &w2)
+		l := w2.Lifetimes[0]
+		if l.Mode == "tasks" && l.Sched != nil {
+			l.Sched.Seed ^= 0x5bd1e995
+			l.Sched.Forced = nil
+		} else {
+			for i, j := 0, len(l.Tests)-1; i < j; i, j = i+1, j-1 {
+				l.Tests[i], l.Tests[j] = l.Tests[j], l.Tests[i]
+			}
+		}
+		out2 := runWorld(env, &w2)
+		if out2.Infra != "" {
+			out.Infra = out2.Infra
+			return out
+		}
+		if out2.Viol == nil {
+			for _, p := range model.SortedKeys(out.Stats.Sorted) {
+				a, c := out.Stats.Sorted[p], out2.Stats.Sorted[p]
+				if c != nil && string(a) != string(c) {
+					v := viol("sort-depends-on-initial-order", len(w.Lifetimes)-1, -1, p, []string{"C10"}, "after Clean with Sort, %s differs between two worlds that hold the same entries recorded in a different order:\n%q\nvs\n%q", p, clip2(string(a)), clip2(string(c)))
+					v.File = p
+					if st := (&wstate{env: env, w: w, out: out}); st.hit(v) {
+						break
+					}
+				}
+			}
+		}
+		return out
+	}
 	if w.Differential != "fresh-config" || out.Infra != "" {
 		return out
 	}
